@@ -28,7 +28,10 @@ ApplyEdit(g, e, m) ==
   IF IsUnspec(g) THEN g
   ELSE LET a == m[e.a] IN
   CASE e.op = "form" -> LET b == m[e.b] IN IF HasBond(g, a, b) THEN Unspecified ELSE WithBond(g, a, b, EditKind(e.kind))
-    [] e.op = "break" -> LET b == m[e.b] IN IF ~HasBond(g, a, b) THEN Unspecified ELSE WithoutBond(g, a, b)
+    \* a break declares the order of the bond it breaks (checked against the pattern when the rule is read); if an
+    \* earlier edit of the same rule has changed that order the declaration no longer describes the bond
+    [] e.op = "break" -> LET b == m[e.b] IN
+         IF ~HasBond(g, a, b) \/ TheBond(g, a, b).kind # EditKind(e.kind) THEN Unspecified ELSE WithoutBond(g, a, b)
     [] e.op = "modify" -> LET b == m[e.b] IN IF ~HasBond(g, a, b) THEN Unspecified
                           ELSE WithBond(WithoutBond(g, a, b), a, b, EditKind(e.kind))
     [] e.op = "increase" -> LET b == m[e.b] IN
